@@ -122,6 +122,8 @@ type Env struct {
 	T0 time.Time
 	T  *Track
 	Shadow *shadow
+	OnlyReplica string
+	Thorough    bool
 }
 
 // BlockResp records the observer's responses for cross-replica comparison.
